@@ -212,8 +212,10 @@ def gen(repo):
     asrc = open(os.path.join(repo, "src", "angle.rs")).read()
     out = ""
     for c in HOURS_CONSTS:
-        ty, val = X.find_const(hsrc, c)
-        out += "pub const %s: %s = %s;\n" % (c, ty, val)
+        X.find_const(hsrc, c)          # anchors: these names are used by the specification formulas
+    # every module-level f64 constant of hours.rs is re-emitted (so that a refactor introducing a named constant still extracts)
+    for m in re.finditer(r"(?m)^(?:pub(?:\([a-z]+\))?\s+)?const\s+([A-Z0-9_]+)\s*:\s*f64\s*=\s*([^;]+);", hsrc):
+        out += "pub const %s: f64 = %s;\n" % (m.group(1), m.group(2).strip())
     ty, val = X.find_const(asrc, "TWO_PI_DEG")
     out += "pub const TWO_PI_DEG: %s = %s;\n" % (ty, val)
     out = PRELUDE.replace("verus! {\n", "verus! {\n" + out, 1)
